@@ -161,7 +161,8 @@ class PathSym:
     def call_expr(self, t, pos, depth):
         name = t.get("resolved") or t.get("callee") or "<indirect>"
         args = tuple(self.expr_of_operand(a, pos, depth + 1) for a in t["args"])
-        return ("call", name, args, t.get("callee_full") or name)
+        # 5th element: the block of the call site (distinguishes two calls of the same function)
+        return ("call", name, args, t.get("callee_full") or name, self.events[pos][1])
 
     def expr_of_rvalue(self, rv, pos, depth):
         k = rv[0]
